@@ -1,7 +1,8 @@
 (* C01, top layer: the end-to-end theorems about Model/TcpNet.v, closed.
 
    What is proved here, from C04 (Proofs/TcpRecvTheorems.v), C05 (through the single statement
-   [c05_contract], Proofs/TcpNetContract.v) and "channel is a subset of emitted":
+   [c05_contract], Proofs/TcpNetContract.v, itself assembled from C05's theorems in
+   Proofs/TcpNetTx.v under the premise [c05_ka_bound]) and "channel is a subset of emitted":
      chan_sub_sent             everything in flight was emitted by the other socket
      e2e_prefix                in every reachable state, what each application has read is a
                                prefix of what the peer application has written (both directions)
@@ -14,8 +15,8 @@
 From SV Require Import Lib.Base Gen.Consts.
 From SV Require Import Model.Seq32 Model.Assembler Model.TcpBuf Model.TcpTypes Model.Tcp Model.TcpNet.
 From SV Require Import Proofs.TcpSendBase Proofs.TcpSendInv Proofs.TcpSendTrace.
-From SV Require Import Proofs.TcpNetBase Proofs.TcpNetFrame Proofs.TcpNetContract Proofs.TcpNetCompose
-  Proofs.TcpNetInv.
+From SV Require Import Proofs.TcpNetBase Proofs.TcpNetFrame Proofs.TcpNetContract Proofs.TcpNetTx
+  Proofs.TcpNetCompose Proofs.TcpNetInv.
 
 (* the base case of the C05 contract is C05's [new_inv] *)
 Lemma c05_new_holds : c05_contract_new.
@@ -28,8 +29,11 @@ Definition finished_complete (st : net) : Prop :=
   (ep_finished (n_b st) = true -> ep_read (n_b st) = ep_written (n_a st)) /\
   (ep_finished (n_a st) = true -> ep_read (n_a st) = ep_written (n_b st)).
 
+(* Everything C01 consumes from C05 is proved (Proofs/TcpNetTx.v: c05_contract_of_ka) except where
+   a keep-alive probe sits, [c05_ka_bound]. *)
 Section FromContract.
-  Hypothesis c05 : c05_contract.
+  Hypothesis ka : c05_ka_bound.
+  Let c05 : c05_contract := c05_contract_of_ka ka.
 
   Theorem e2e_prefix_c ca cb st0 evs st :
     cfg_ok ca -> cfg_ok cb -> net_init ca cb = Ok st0 ->
